@@ -1052,3 +1052,94 @@ Section Total.
       right. split; [exact H|]. right. exists pd, k. repeat split; assumption.
   Qed.
 End Total.
+
+(* ------------------------------------------------------------------------------------------ *)
+(* I. extension round: executable parser, per-pub shot count, the public wrapper               *)
+(* ------------------------------------------------------------------------------------------ *)
+
+(* the integer a key denotes under the executable parser (0 for a rejected key) *)
+Definition ref_den (k : key) : N :=
+  match outcome_to_int pyint0_ref k with Some n => n | None => 0%N end.
+
+Lemma ref_den_ok k : outcome_to_int pyint0_ref k <> None -> outcome_to_int pyint0_ref k = Some (ref_den k).
+Proof. unfold ref_den. destruct (outcome_to_int pyint0_ref k); [reflexivity|congruence]. Qed.
+
+(* no oracle, no contract hypothesis: the three key syntaxes under the executable parser *)
+Lemma keys_parser :
+  (forall n, outcome_to_int pyint0_ref (KInt n) = Some n) /\
+  (forall s, key_chars s <> [] -> forallb (digit_ok 2) (key_chars s) = true ->
+     outcome_to_int pyint0_ref (KStr s) = Some (radix_value 2 (key_chars s))) /\
+  (forall s c ds, c = "b"%char \/ c = "B"%char -> key_chars s = "0"%char :: c :: ds -> ds <> [] ->
+     forallb (digit_ok 2) ds = true -> outcome_to_int pyint0_ref (KStr s) = Some (radix_value 2 ds)) /\
+  (forall s c hs, c = "x"%char \/ c = "X"%char -> key_chars s = "0"%char :: c :: hs -> hs <> [] ->
+     forallb (digit_ok 16) hs = true -> outcome_to_int pyint0_ref (KStr s) = Some (radix_value 16 hs)).
+Proof. exact (keys_full pyint0_ref pyint0_ref_contract). Qed.
+
+Lemma estimator_parser nobs coeffs pds :
+  (forall pd, In pd pds -> data_len (snd pd) = length coeffs * length (pgroups (fst pd))) ->
+  (forall pd, In pd pds -> length (plookup (fst pd)) = nobs /\ locs_ok (fst pd)) ->
+  (forall pd k, In pd pds -> In k (keys_of (snd pd)) -> outcome_to_int pyint0_ref k <> None) ->
+  res_Qeq (reconstruct_parts pyint0_ref nobs coeffs pds)
+          (Ok (map (estimator ref_den coeffs pds) (seq 0 nobs))).
+Proof.
+  intros H1 H2 H3. apply estimator_full; [exact H1|exact H2|].
+  intros pd k Hpd Hk. apply ref_den_ok, (H3 pd k Hpd Hk).
+Qed.
+
+Local Open Scope Q_scope.
+
+Lemma Qsum_scale {A} (a : Q) (f : A -> Q) l : Qsum (map (fun x => a * f x) l) == a * Qsum (map f l).
+Proof.
+  induction l as [|x r IH]; cbn [map]; [cbn; ring|]. rewrite !Qsum_cons, IH. ring.
+Qed.
+
+(* the V2 average is taken with the shot count of THAT pub *)
+Lemma E_exp_v2_average den c n pubs idx :
+  E_exp den c n (DV2 pubs) idx
+  == Qsum (map (fun s => inject_Z (outcome_value_v2 (nth n (cog_masks c) 0%N) (bytes_value (fst s)) (bytes_value (snd s))))
+               (nth idx pubs []))
+     / Qnat (length (nth idx pubs [])).
+Proof.
+  cbn [E_exp].
+  rewrite (Qsum_scale (1 / Qnat (length (nth idx pubs [])))
+             (fun s => inject_Z (outcome_value_v2 (nth n (cog_masks c) 0%N) (bytes_value (fst s)) (bytes_value (snd s))))).
+  unfold Qdiv. ring.
+Qed.
+
+Lemma experiment_v2_own_shots pyint0 pubs idx c n : (n < length (cog_masks c))%nat ->
+  exists v, experiment pyint0 (DV2 pubs) idx c = Ok v /\
+    nth n v 0
+    == Qsum (map (fun s => inject_Z (outcome_value_v2 (nth n (cog_masks c) 0%N) (bytes_value (fst s)) (bytes_value (snd s))))
+                 (nth idx pubs []))
+       / Qnat (length (nth idx pubs [])).
+Proof.
+  intros Hn.
+  destruct (experiment_spec pyint0 (fun _ => 0%N) (DV2 pubs) idx c) as [v [E1 [_ E3]]]; [intros k []|].
+  exists v. split; [exact E1|]. rewrite (E3 n Hn). apply E_exp_v2_average.
+Qed.
+
+Local Close Scope Q_scope.
+
+(* the public wrapper (dict form) computes the estimator *)
+Lemma public_estimator pyint0 den m coeffs p0 ps :
+  (forall l, In l (map plabel (p0 :: ps)) <-> In l (map fst m)) ->
+  (forall p x, In p (p0 :: ps) -> In x (pphases p) -> x = 0) ->
+  (forall p, In p (p0 :: ps) -> length (plookup p) = length (plookup p0) /\ locs_ok p) ->
+  (forall p d, In p (p0 :: ps) -> assoc m (plabel p) = Some d ->
+     data_len d = length coeffs * length (pgroups p) /\
+     forall k, In k (keys_of d) -> outcome_to_int pyint0 k = Some (den k)) ->
+  exists pds, map fst pds = p0 :: ps /\
+    (forall pd, In pd pds -> assoc m (plabel (fst pd)) = Some (snd pd)) /\
+    res_Qeq (reconstruct pyint0 (RMap m) coeffs (OMap (p0 :: ps)))
+            (Ok (map (estimator den coeffs pds) (seq 0 (length (plookup p0))))).
+Proof.
+  intros K PH SH DA.
+  destruct (reconstruct_map_valid pyint0 m coeffs p0 ps K PH) as [pds [A1 [A2 A3]]].
+  exists pds. split; [exact A1|]. split; [exact A2|]. rewrite A3.
+  assert (IN : forall pd, In pd pds -> In (fst pd) (p0 :: ps)).
+  { intros pd Hpd. rewrite <- A1. apply in_map, Hpd. }
+  apply estimator_full.
+  - intros pd Hpd. apply (DA (fst pd) (snd pd) (IN pd Hpd) (A2 pd Hpd)).
+  - intros pd Hpd. apply SH, IN, Hpd.
+  - intros pd k Hpd Hk. apply (proj2 (DA (fst pd) (snd pd) (IN pd Hpd) (A2 pd Hpd)) k Hk).
+Qed.
